@@ -60,12 +60,17 @@ def draw(rng, nmax):
         vals = [rng.randint(rng.choice([0, 1]), rng.choice([20, 30, 30, 60])) for _ in range(n)]
         return {"kind": "partition", "alg": "cbldm", "k": 2, "values": vals, "cls": "mid_binding", "cbldm_d": rng.choice([1, 1, 1, 2, 3]), "pres": "list", "pres_seed": 0}
     n = rng.randint(1, nmax) if rng.random() < 0.6 else rng.randint(max(1, nmax - 4), nmax)
-    cls = rng.choice(["random", "random", "zeros", "repeats", "ones", "ties", "skewed", "big", "bigties", "bignear", "pool", "pool", "pool"])
+    cls = rng.choice(["random", "random", "zeros", "repeats", "ones", "ties", "skewed", "big", "bigties", "bignear", "pool", "pool", "pool", "bigtiny", "bigtiny"])
     if cls == "pool":
         # many items over 3-5 distinct values with a binding bound: arithmetic coincidences between different groupings (memo / pruning defects show here)
         n = rng.randint(min(11, nmax), nmax)
         pool = rng.sample(range(1, 16), rng.randint(3, 5))
         vals = [rng.choice(pool) for _ in range(n)]
+    elif cls == "bigtiny":
+        # a few big items and a few tiny ones: the tiny items cannot make up for a big item placed wrongly (almost-valid pruning rules fail here)
+        vals = [rng.randint(20, 100) for _ in range(rng.randint(3, 7))] + [rng.randint(1, 8) for _ in range(rng.randint(2, 5))]
+        rng.shuffle(vals)
+        n = len(vals)
     elif cls == "big":
         vals = [rng.randint(0, rng.choice([10 ** 9, 10 ** 12, 2 ** 48])) for _ in range(n)]
     elif cls == "bignear":
